@@ -203,7 +203,7 @@ other(
     "mismatch is logged) and the exit decision of verify_directory_hash_subcommand as a region contract (exit 12 iff every calculated "
     "format has a recorded failure), for all values of the failure bookkeeping; find_directory_hash_entries_for_path (the recorded entries "
     "the comparison runs over: every hash entry of every directory record of the path in EVERY generation, for '.' also every root hash "
-    "entry of every generation - nothing of a later or earlier generation is dropped - and nothing else; four loop invariants); the directory-hash kernel it calls is proved under "
+    "entry of every generation - nothing of a later or earlier generation is dropped - and nothing else; four loop invariants); the list of calculated formats (region `formats`: duplicate-free, non-empty, the -h format alone when given, else complete over the root history's root hashes); the directory-hash kernel it calls is proved under "
     "C07. Bounded: the traversal / comparison loops of the 200-line body (nested closure, nonlocal) on every single mutation at every "
     "depth incl. the root, histories with -n / -sf generations and nested histories with differing formats.",
 )
